@@ -6,6 +6,7 @@ import Driver.CmdExec
 import Driver.CmdAcct
 import Driver.CmdMisc
 import Driver.CmdMatch
+import Driver.CmdSize
 /-! Command table of the replay driver (model instantiated at `Float`). -/
 namespace Driver
 open RQ.F
@@ -55,6 +56,9 @@ def dispatch (toks : List String) : String :=
   | some r => r
   | none =>
   match cmdMatch toks with
+  | some r => r
+  | none =>
+  match cmdSize toks with
   | some r => r
   | none => "ERR unknown-command"
 
